@@ -30,7 +30,7 @@ def Item.isRes : Item → Bool
 structure FileItems where
   core : Bool
   items : List Item
-deriving Repr, Inhabited
+deriving DecidableEq, Repr, Inhabited
 
 /-- what `Parser.parse` hands to `elaborate`: files in parse order (imports first), each with its core flag -/
 def flattenFiles (fs : List FileItems) : List (Bool × Item) :=
